@@ -64,17 +64,20 @@ structure Cfg where
   /-- F8 a constructor that raises after `Lexical.__init__` lets go of everything it took: the
   parent releases the half-built object, a `Workflow(label, *nodes)` its nodes (labels restored) -/
   ctorRollback : Bool
+  /-- F9 `Node.load()` in place keeps the owner of the live node (not an operation of the
+  property's list; used by `loadInPlace` only) -/
+  loadKeepsOwner : Bool
   /-- depth available to the recursion of `lexical_path` (Python's recursion limit) -/
   fuel : Nat
   deriving Repr
 
-def Cfg.pinned (fuel : Nat := 64) : Cfg := ⟨false, false, false, false, false, false, false, false, fuel⟩
-def Cfg.repaired (fuel : Nat := 64) : Cfg := ⟨true, true, true, true, true, true, true, true, fuel⟩
+def Cfg.pinned (fuel : Nat := 64) : Cfg := ⟨false, false, false, false, false, false, false, false, false, fuel⟩
+def Cfg.repaired (fuel : Nat := 64) : Cfg := ⟨true, true, true, true, true, true, true, true, true, fuel⟩
 /-- /repo at 02da358 and later: F1–F7, without `fixes/C13-constructor-rollback.patch` (F8) -/
-def Cfg.head (fuel : Nat := 64) : Cfg := ⟨true, true, true, true, true, true, true, false, fuel⟩
+def Cfg.head (fuel : Nat := 64) : Cfg := ⟨true, true, true, true, true, true, true, false, false, fuel⟩
 /-- the four `fix:` commits d3d68f8, c218405, 8702aee, 53801cf (F1–F6) without
 `fixes/C13-replace-child-precheck.patch` (F7) -/
-def Cfg.sixFixes (fuel : Nat := 64) : Cfg := ⟨true, true, true, true, true, true, false, false, fuel⟩
+def Cfg.sixFixes (fuel : Nat := 64) : Cfg := ⟨true, true, true, true, true, true, false, false, false, fuel⟩
 
 structure Tree where
   kind     : Nat → Kind
@@ -459,6 +462,25 @@ def replaceChildLabel (cfg : Cfg) (t : Tree) (p : Nat) (l : Str) (new : Nat) : T
     match lookupKey (t.children p) l with
     | none => (t, .keyError)
     | some old => replaceChild cfg t p old new
+
+/-- `LexicalParent.__setstate__`: `for child in self: child.parent = self` — every listed child
+(a freshly loaded object whose owner was purged by `__getstate__`) is told who owns it -/
+def reownList (t : Tree) (c : Nat) : List (Str × Nat) → Tree
+  | [] => t
+  | (_, v) :: r => reownList { t with parent := updF t.parent v (some c) } c r
+
+/-- … all the way down (`n` nesting levels) -/
+def reown : Nat → Tree → Nat → Tree
+  | 0, t, _ => t
+  | n + 1, t, c => (t.children c).foldl (fun acc e => reown n acc e.2) (reownList t c (t.children c))
+
+/-- `node.load()` in place, ownership side: `self.__setstate__(inst.__getstate__())` installs a
+state whose owner `Lexical.__getstate__` has purged; the children of a composite are replaced by
+equally labelled loaded ones (the same ids here: the user lets go of the discarded objects),
+which `__setstate__` re-owns -/
+def loadInPlace (cfg : Cfg) (t : Tree) (c : Nat) : Tree :=
+  let t1 := if cfg.loadKeepsOwner then t else { t with parent := updF t.parent c none }
+  reown cfg.fuel t1 c
 
 inductive Op
   | new (c : Nat) (label : Str) (np : Option Nat)
